@@ -88,7 +88,7 @@ func editQuery(r *vh.Rng, c *Case) string {
 	s := (*l)[i]
 	switch r.Intn(9) {
 	case 0, 1: // the same alias once more, with part of the sub-selections (in another order)
-		if !isField(s) || s.Dir != nil || !plainSubs(s) {
+		if !isField(s) || !plainSubs(s) {
 			return ""
 		}
 		d := s
@@ -134,9 +134,10 @@ func editQuery(r *vh.Rng, c *Case) string {
 			*l = append([]Sel{{Alias: "__typename", Name: "__typename"}}, (*l)...)
 		}
 		return "add-typename"
-	case 5: // an existing directive: other value, or gone
+	case 5: // a directive more; an existing directive: other value, or gone
 		if s.Dir == nil {
-			return ""
+			(*l)[i].Dir = &Dir{Name: r.Pick([]string{"skip", "include"}), Val: r.Bool()}
+			return "add-directive"
 		}
 		if r.Chance(30) {
 			(*l)[i].Dir = nil
@@ -176,8 +177,8 @@ func editQuery(r *vh.Rng, c *Case) string {
 		}
 		if len(s.Subs) > 1 && r.Bool() {
 			cut := 1 + r.Intn(len(s.Subs)-1)
-			a := Sel{On: s.On, Dir: s.Dir, Subs: cloneSels(s.Subs[:cut])}
-			b := Sel{On: s.On, Dir: s.Dir, Subs: cloneSels(s.Subs[cut:])}
+			a := Sel{On: s.On, Dir: s.Dir, Dir2: s.Dir2, Subs: cloneSels(s.Subs[:cut])}
+			b := Sel{On: s.On, Dir: s.Dir, Dir2: s.Dir2, Subs: cloneSels(s.Subs[cut:])}
 			*l = append(append(append([]Sel{}, (*l)[:i]...), a, b), (*l)[i+1:]...)
 			return "split-fragment"
 		}
